@@ -16,7 +16,7 @@ RULE = ("knots = closures of random braid words on 2-4 strands whose permutation
         "knots up to 6 crossings and unknot diagrams, their mirrors, kinked / relabelled / reordered copies and closures of braid "
         "words with at most 6 letters (the oracle skips a diagram when a chain group around degree 0 has more than 100 (quick) / 150 "
         "(thorough) generators). "
-        "non-trivial = knot with >= 3 crossings (cyc, ss) or link with >= 2 components (lee); distinct = distinct case lines")
+        "non-trivial = knot with >= 3 crossings (cyc, ss) or link with >= 2 components (lee); ss is also compared between table knots and the same diagrams with an already resolved, orientation-compatible entry inserted in front of unresolved crossings; distinct = distinct case lines")
 
 
 # companion property files: C06Ss = the definition-level oracle ss_spec for the value of the invariant
